@@ -21,6 +21,32 @@ pub fn register_biometrics(collector: &Collector) {
     collector.register_counter(&BREAK_EARLY);
 }
 
+//////////////////////////////////////////////// verif /////////////////////////////////////////////
+
+/// Verification hooks, compiled only with `--cfg rescrv_blue_verif`: report the wait-list index a
+/// call to `do_work` was linked at, i.e. the order in which calls entered the queue.
+#[cfg(rescrv_blue_verif)]
+pub mod verif {
+    use std::sync::atomic::{AtomicUsize, Ordering};
+
+    pub type LinkFn = fn(u64);
+    static ON_LINK: AtomicUsize = AtomicUsize::new(0);
+
+    pub fn set_on_link(f: Option<LinkFn>) {
+        ON_LINK.store(f.map(|f| f as usize).unwrap_or(0), Ordering::SeqCst);
+    }
+
+    #[inline]
+    pub(crate) fn on_link(index: u64) {
+        let f = ON_LINK.load(Ordering::Relaxed);
+        if f != 0 {
+            // SAFETY: only ever stored from a LinkFn in set_on_link.
+            let f: LinkFn = unsafe { std::mem::transmute::<usize, LinkFn>(f) };
+            f(index);
+        }
+    }
+}
+
 ///////////////////////////////////////////// WaitState ////////////////////////////////////////////
 
 #[derive(Clone)]
@@ -103,6 +129,8 @@ impl<I: Clone, O: Clone, C: WorkCoalescingCore<I, O>> WorkCoalescingQueue<I, O, 
     /// then return the output associated with this input.
     pub fn do_work(&self, input: I) -> O {
         let mut waiter = self.wait_list.link(WaitState::Input(input));
+        #[cfg(rescrv_blue_verif)]
+        verif::on_link(waiter.index());
         let (work, mut core, taken) = {
             let mut state = self.state.lock().unwrap();
             while state.doing_work || !waiter.is_head() {
